@@ -139,10 +139,10 @@ import (
 
 const (
 	c09Max = 1 << 16 // no byte string, list or allocation-size argument is ever larger
-	// c09Probe enables cases that PANIC on the unchanged /repo for a reason that is not a
-	// documented exception of the property (see c09GenProbes); they are kept out of the
-	// default stream and reported separately.
-	c09Probe = false
+	// c09Finding is the key of the recorded known finding (known_findings.txt): a generator restored
+	// within reach of the 2^38-byte keystream limit panics inside golang.org/x/crypto/chacha20
+	// ("chacha20: counter overflow") on the read that crosses it.
+	c09Finding = "prg-counter-overflow"
 )
 
 // ---- case input (JSON) ----
@@ -162,6 +162,12 @@ type c09In struct {
 	S   uint64   `json:"s,omitempty"`   // seed of derived material (threshold keys, DKG seeds, PRG seed)
 	Ops []string `json:"ops,omitempty"` // method name / op sequence
 	D   *c09Dkg  `json:"d,omitempty"`   // DKG scenario
+	// Tag: "finding" = probe of the recorded known finding prg-counter-overflow (the case carries
+	// Case.Finding; the oracle flags ONLY the panic "chacha20: counter overflow" on it);
+	// "shadow" = the same input again without Case.Finding: the oracle tolerates exactly that
+	// panic there and flags any other one.  Facts ("finding.prg-counter-overflow",1) resp.
+	// ("shadow.prg-counter-overflow",1).
+	Tag string `json:"tag,omitempty"`
 }
 
 type c09DkgOp struct {
@@ -2068,6 +2074,12 @@ func init() {
 		r.skel = r.api
 		r.F("restored", c09b2i(restored))
 		r.FU("counter", ctr)
+		switch in.Tag {
+		case "finding":
+			r.F("finding.prg-counter-overflow", 1)
+		case "shadow":
+			r.F("shadow.prg-counter-overflow", 1)
+		}
 		swapOf := func() (func(i, j int), error) {
 			ks, err := in.k(0)
 			if err != nil {
@@ -2469,9 +2481,7 @@ func c09Gen(tier string, r *rand.Rand) []Case {
 	g.prg()
 	g.dkgCtors()
 	g.dkg()
-	if c09Probe {
-		g.probes()
-	}
+	g.probes()
 	return g.cs
 }
 
@@ -3568,19 +3578,28 @@ func (g *c09G) dkg() {
 	}
 }
 
-// cases that panic on the unchanged /repo outside the documented exceptions (only with c09Probe)
+// the recorded known finding prg-counter-overflow: each input is generated twice, once tagged
+// (Case.Finding, Tag "finding") and once as its untagged shadow (Tag "shadow"), see c09In.Tag
 func (g *c09G) probes() {
 	st := func(c uint64) string {
 		b := make([]byte, 8)
 		binary.LittleEndian.PutUint64(b, c)
 		return "r44.1+x" + hx(b)
 	}
+	both := func(in c09In) {
+		in.Tag = "finding"
+		c := mkcase("probe-prg-overflow", in)
+		c.Finding = c09Finding
+		g.cs = append(g.cs, c)
+		in.Tag = "shadow"
+		g.cs = append(g.cs, mkcase("probe-prg-overflow-shadow", in))
+	}
 	// a generator restored at the last block of the 2^38-byte keystream: the next reads overflow
 	// the 32-bit block counter of golang.org/x/crypto/chacha20, which panics
 	for _, c := range []uint64{(1<<32 - 1) * 64, (1<<32-1)*64 + 63, 1<<38 - 1} {
 		for _, n := range []int{1, 64, 65, 129} {
-			g.add("probe-prg-overflow", c09In{F: "prg", Ops: []string{"Read"}, B: []string{g.bl(n), st(c)}})
+			both(c09In{F: "prg", Ops: []string{"Read"}, B: []string{g.bl(n), st(c)}})
 		}
-		g.add("probe-prg-overflow", c09In{F: "prg", Ops: []string{"UintN"}, U: []uint64{1 << 40}, B: []string{"nil", st(c)}})
+		both(c09In{F: "prg", Ops: []string{"UintN"}, U: []uint64{1 << 40}, B: []string{"nil", st(c)}})
 	}
 }
